@@ -93,11 +93,9 @@ def gen_cases(rng, tier, shard, nshards):
     # code-point sweep
     top = 0x10000 if quick else 0x110000
     step = 0x400
-    idx = 0
-    for lo in range(0, top, step):
-        if idx % nshards == shard:
-            yield {'fam': 'url_cp', 'lo': lo, 'hi': min(top, lo + step)}
-        idx += 1
+    mine = [lo for idx, lo in enumerate(range(0, top, step)) if idx % nshards == shard]
+    for lo in mine:
+        yield {'fam': 'url_cp', 'tier': tier, 'lo': lo, 'hi': min(top, lo + step), 'last': lo == mine[-1]}
     nclaim = 24 if quick else 700
     nurl = 15 if quick else 300
     nleg = 3 if quick else 60
@@ -412,12 +410,31 @@ def enum_string(alphabet, idx):
     return ''.join(reversed(out))
 
 
+def enum_key(tier):
+    quick = tier == 'quick'
+    return (f'urls_all_strings_len<={5 if quick else 6}_over_'
+            f'{len(ENUM_ALPHABET_QUICK if quick else ENUM_ALPHABET_THOROUGH)}_chars_with_and_without_scheme')
+
+
+def cp_key(tier):
+    return 'urls_every_BMP_code_point_in_8_contexts' if tier == 'quick' else 'urls_every_code_point_U+0000..U+10FFFF_in_8_contexts'
+
+
+def shard_finish(rec, tier):
+    # a sub-space is reported exhaustive only if no shard had to stop early
+    if rec.notes.get('stopped_on_budget'):
+        rec.log('shard_stopped_on_budget')
+        for k in (enum_key(tier), cp_key(tier)):
+            if not rec.hits.get('done.' + k):
+                rec.exhaustive[k] = False
+
+
 def run_url_enum(rec, URL, case):
     quick = case['tier'] == 'quick'
     alphabet = ENUM_ALPHABET_QUICK if quick else ENUM_ALPHABET_THOROUGH
     maxlen = 5 if quick else 6
     total = enum_total(len(alphabet), maxlen)
-    key = f'urls_all_strings_len<={maxlen}_over_{len(alphabet)}_chars_with_and_without_scheme'
+    key = enum_key(case['tier'])
     i, done = case['first'], 0
     complete = True
     while i < total and done < case['count']:
@@ -432,10 +449,12 @@ def run_url_enum(rec, URL, case):
         i += case['stride']
         done += 1
     rec.exhaustive[key] = rec.exhaustive.get(key, True) and complete
+    if complete and i >= total:
+        rec.hit('done.' + key)
 
 
 def run_url_cp(rec, URL, case):
-    key = 'urls_every_code_point_in_8_contexts'
+    key = cp_key(case.get('tier', 'quick'))
     for o in range(case['lo'], case['hi']):
         c = chr(o)
         for t in CP_TEMPLATES:
@@ -444,6 +463,8 @@ def run_url_cp(rec, URL, case):
             judge_url(rec, URL, u, 'codepoint:' + charclass(c))
         rec.hit('M45.codepoint_swept')
     rec.exhaustive[key] = rec.exhaustive.get(key, True)
+    if case.get('last'):
+        rec.hit('done.' + key)
 
 
 URL_FIXED = lbryurl.INVALID_VECTORS + [v[0] for v in lbryurl.VALID_VECTORS] + [
@@ -455,9 +476,9 @@ URL_FIXED = lbryurl.INVALID_VECTORS + [v[0] for v in lbryurl.VALID_VECTORS] + [
 # ======================================================================================
 # claims (M1, M2): spec generation
 # ======================================================================================
-U32 = [0, 1, 2, 255, 65535, 2 ** 31 - 1, 2 ** 31, 2 ** 32 - 1]
-U64 = [0, 1, 2 ** 31 - 1, 2 ** 32 - 1, 2 ** 32, 2 ** 53 + 1, 2 ** 63 - 1, 2 ** 63, 2 ** 64 - 1]
-I64 = [0, 1, 2 ** 31 - 1, 2 ** 31, 2 ** 32 - 1, 2 ** 63 - 1, -1, -2 ** 63, 1500000000]
+U32 = [0, 1, 2, 255, 65535, 2 ** 31 - 1, 2 ** 31, 2 ** 31 + 1, 2 ** 32 - 1]
+U64 = [0, 1, 2 ** 31 - 1, 2 ** 31 + 1, 2 ** 32 - 1, 2 ** 32, 2 ** 53 + 1, 2 ** 63 - 1, 2 ** 63, 2 ** 64 - 1]
+I64 = [0, 1, 2 ** 31 - 1, 2 ** 31, 2 ** 31 + 1, 2 ** 32 - 1, 2 ** 63 - 1, -1, -2 ** 63, 1500000000]
 TEXT_POOLS = [
     'abcdefghijklmnopqrstuvwxyz ABCDEFGHIJKLMNOPQRSTUVWXYZ0123456789 .,;:!?-_/\\"\'()[]{}<>@#$%^&*+=|~`',
     '\u00e9\u00df\u00f1\u00c5\u00d8\u0416\u0436\u03a9\u03c9\u05d0\u0627\u0644 ',
